@@ -108,6 +108,15 @@ CLAIMED = {
                 note='Partial: the renderer is template-less (elements fall back to the default hook), so the Python-level routing is covered, not theme layouts or footnote gathering '
                      'by Jinja2/ZPT templates (compiled template code is beyond the engine). open() is captured in memory.',
                 ref='DESIGN.md section 5 C13'),
+    'C14': dict(level='model_checking',
+                text='The real base Renderer renders 3 skeletons (labels on sections, subsections, an equation; references from other units; footnotes at three depths; article, book, '
+                     'deep nesting) x base-url empty/set with the split level, toc-depth and toc-non-files symbolic (z3): while the renderable mixin is active every node URL is its own '
+                     'file or nearest file-producing ancestor file + #id, that file is produced, every reference link names the file its target is rendered into with the target id as '
+                     'fragment, identifiers are unique per file, every footnote is gathered by the unit producing its file and its mark links there, and with sufficient toc-depth every '
+                     'file-producing unit is reachable through tableofcontents.',
+                note='Partial: covers the Python-level URL / identifier / table-of-contents / footnote computations the templates consume; the href and id attributes the Jinja2/ZPT '
+                     'templates finally emit are outside the claim (compiled template code is beyond the engine). Index and citation links are not covered.',
+                ref='DESIGN.md section 5 C14'),
     'C15': dict(level='model_checking',
                 text='Bounded exhaustive over request histories of the real generator through its call interface: 7 templates of the documented grammar x histories of 2-4 '
                      '(thorough 4-6) requests x every presence pattern of the bindings (symbolic booleans) x ALL binding values of bounded length over {a,b,blank,/} (symbolic: '
